@@ -23,7 +23,8 @@
 From EoNV Require Import Prelude Samp Graph ListDict ListDictP Gillespie KldP GillespieInv SampP GillespieP GillespieLog.
 From EoNV Require Import Investigation InvestigationP GillespieC10.
 From EoNV Require Import EventSIS EventSISP EventSISRows EventSISLog EventSISFast EventSISNM EventSISOut EventSISInit EventSISEx.
-From EoNV Require Import InitChk InitChkSIS C05sHist C05sTop C05sStatus.
+From EoNV Require Import InitChk InitChkSIS C05sHist C05sTop C05sStatus C05sQuiet.
+From Coq Require Import Lqa.
 
 Section C05s.
 Variable g : graph.
@@ -131,6 +132,19 @@ Theorem C05s_statuses_at_tmin_are_the_request : forall nodes i0 tmin rows fd,
     Ok (if mem u i0 then stI else stS).
 Proof. exact statuses_at_tmin. Qed.
 
+(* fast_nonMarkov_SIS: the tie clause bites only for a ZERO duration or delay.  With strictly
+   positive rules ([rules_pos]) nothing but the requested infections is dated tmin, the full-data
+   object answers exactly the request at tmin *)
+Theorem C05s_fast_nonMarkov_SIS_positive_rules_exact_start : forall g, (forall u v, In v (gadj g u) -> In v (gnodes g)) ->
+  forall dur delays tmax tmin i0 fuel out fd,
+  ic_sis_domb (gnodes g) i0 tmin tmax = true -> rules_ok dur delays -> rules_pos dur delays ->
+  nm_run g dur delays tmax tmin true fuel i0 = Ok out -> so_full out = Some fd ->
+  quiet_at_tmin (gnodes g) tmin fd = true /\
+  forall u, In u (gnodes g) ->
+    Investigation.node_status (Investigation.mkInv (gnodes g) (fd_hist fd) (Some [(tmin, stS)]) (Some [stS; stI])) u tmin =
+    Ok (if mem u i0 then stI else stS).
+Proof. exact nmsis_positive_rules_exact_start. Qed.
+
 (* rho together with initial_infecteds -- a single node or a collection, whatever the values,
    also rho = 0 or an empty list (the `is not None` tests of sim:2758, 2937): EoNError,
    nothing drawn, no rule called *)
@@ -203,6 +217,14 @@ Example C05s_fast_nonMarkov_SIS_example :
   end.
 Proof. split; [exact exS_rules_ok|]. vm_compute. repeat split. Qed.
 
+Example C05s_rules_pos_satisfiable : rules_pos durS delS /\ rules_ok durS delS.
+Proof.
+  split; [|exact exS_rules_ok]. split.
+  - intros v k. unfold durS. destruct v as [|[p|[p|p|]|]]; lra.
+  - intros v w k. unfold delS. destruct v as [|[p|[p|p|]|]]; try constructor;
+      destruct w as [|[q|[q|q|]|]]; repeat constructor; lra.
+Qed.
+
 (* the tie clause of the checker is real: a rule table with the delay 0 infects node 1 AT tmin;
    its history then starts (tmin, I) although it was not requested, and transmissions() shows
    the sourced entry at tmin -- row 0 is still the request *)
@@ -264,6 +286,8 @@ Print Assumptions C05s_fast_SIS_every_argument_form.
 Print Assumptions C05s_fast_nonMarkov_SIS_every_argument_form.
 Print Assumptions C05s_ic_sisb_sound.
 Print Assumptions C05s_statuses_at_tmin_are_the_request.
+Print Assumptions C05s_fast_nonMarkov_SIS_positive_rules_exact_start.
+Print Assumptions C05s_rules_pos_satisfiable.
 Print Assumptions C05s_rho_conflict_rejected.
 Print Assumptions C05s_rho_conflict_rejected_normalised.
 Print Assumptions C05s_single_node_is_singleton.
